@@ -18,11 +18,13 @@ pub fn gen(rng: &mut Rng, _k: usize, _tier: &str) -> J {
     // a few units own most rows, so that the multiplicity bound is exceeded
     let rows: Vec<J> = (0..n_rows).map(|_| { let u = if rng.chance(1, 2) { 0 } else { rng.below(n_units) };
         let x = if rng.chance(1, 10) { J::Null } else if integer { json!(rng.range(-(a as i64), a as i64) as f64) } else { json!((rng.range(-(2.0 * a) as i64, (2.0 * a) as i64) as f64) * 0.5) };
-        json!([u, rng.below(n_groups), x]) }).collect();
+        // a second aggregated column with its own NULL pattern and range [0, 3A]
+        let y = if rng.chance(1, 4) { J::Null } else { json!((rng.range(0, (6.0 * a) as i64) as f64) * 0.5) };
+        json!([u, rng.below(n_groups), x, y]) }).collect();
     // `lo_zero`: a one-sided declared range [0, A] (the values are folded into it)
     let lo_zero = rng.chance(1, 3);
-    let rows: Vec<J> = if lo_zero { rows.into_iter().map(|r| json!([r[0], r[1], r[2].as_f64().map(|x| x.abs())])).collect() } else { rows };
-    json!({"n_units": n_units, "n_groups": n_groups, "a": a, "integer": integer, "lo_zero": lo_zero, "rows": rows, "mult": *rng.pick(&[1.0, 2.0, 3.0, 50.0]),
+    let rows: Vec<J> = if lo_zero { rows.into_iter().map(|r| json!([r[0], r[1], r[2].as_f64().map(|x| x.abs()), r[3]])).collect() } else { rows };
+    json!({"n_units": n_units, "n_groups": n_groups, "a": a, "integer": integer, "lo_zero": lo_zero, "two_columns": rng.chance(1, 2), "rows": rows, "mult": *rng.pick(&[1.0, 2.0, 3.0, 50.0]),
            "eps": *rng.pick(&[1.0, 100.0]), "delta": *rng.pick(&[1e-3, 1e-6])})
 }
 
@@ -34,10 +36,12 @@ pub fn eval(case: &J) -> Outcome {
     let lo = if lo_zero { 0.0 } else { -a };
     let xt = if integer { DataType::integer_interval(lo as i64, a as i64) } else { DataType::float_interval(lo, a) };
     let table: Relation = Relation::table().name("t").schema(vec![
-        ("pu", DataType::integer_interval(0, 10)), ("g", DataType::integer_values((0..ng).collect::<Vec<i64>>())), ("x", DataType::optional(xt)),
+        ("pu", DataType::integer_interval(0, 10)), ("g", DataType::integer_values((0..ng).collect::<Vec<i64>>())), ("x", DataType::optional(xt)), ("y", DataType::optional(DataType::float_interval(0., 3. * a))),
     ].into_iter().collect::<qrlew::relation::Schema>()).size(100).build();
     let rels: Hierarchy<Arc<Relation>> = vec![(vec!["t".to_string()], Arc::new(table))].into_iter().collect();
-    let sql = "SELECT g AS g, count(x) AS c, sum(x) AS s, avg(x) AS m, variance(x) AS v, stddev(x) AS d FROM t GROUP BY g";
+    let two = case["two_columns"].as_bool().unwrap_or(false);
+    let sql = if two { "SELECT g AS g, count(x) AS c, sum(x) AS s, avg(x) AS m, variance(x) AS v, stddev(x) AS d, count(y) AS c2, sum(y) AS s2, avg(y) AS m2, variance(y) AS v2, stddev(y) AS d2 FROM t GROUP BY g" }
+              else { "SELECT g AS g, count(x) AS c, sum(x) AS s, avg(x) AS m, variance(x) AS v, stddev(x) AS d FROM t GROUP BY g" };
     let pu = PrivacyUnit::from(vec![("t", vec![], "pu")]);
     let p = DpParameters::new(case["eps"].as_f64().unwrap(), case["delta"].as_f64().unwrap(), 0.5, mult, 1.0, 5);
     let rel = match guarded(|| { let q = parse(sql).map_err(|e| e.to_string())?; Relation::try_from(QueryWithRelations::new(&q, &rels)).map_err(|e| e.to_string()) }) {
@@ -47,19 +51,27 @@ pub fn eval(case: &J) -> Outcome {
         Ok(Ok(d)) => d, Ok(Err(e)) => { out.tag("trivial"); out.tag("dp-err"); let _ = e; return out; }
         Err((loc, msg)) => { out.tag("trivial"); out.fail(&format!("C18/dpagg/rewrite-panic/{}", site(&loc, &msg)), msg); return out; } };
     let rows: Vec<Vec<Cell>> = case["rows"].as_array().unwrap().iter().map(|r| vec![Cell::Int(r[0].as_i64().unwrap()), Cell::Int(r[1].as_i64().unwrap()),
-        match r[2].as_f64() { None => Cell::Null, Some(x) => { if integer { Cell::Int(x as i64) } else { Cell::Real(x) } } }]).collect();
+        match r[2].as_f64() { None => Cell::Null, Some(x) => { if integer { Cell::Int(x as i64) } else { Cell::Real(x) } } }, r[3].as_f64().map_or(Cell::Null, Cell::Real)]).collect();
     let db = crate::exec::Db::new(RandomMode::Const(1.0)); // ln(1) = 0: every Box–Muller draw is exactly 0 (with 0.25 it is σ·6e-17, visible when σ is huge)
-    db.create_table("t", &["pu", "g", "x"], &rows);
+    db.create_table("t", &["pu", "g", "x", "y"], &rows);
     let facts = ir::facts(dp.relation());
     if !facts.taus.is_empty() { out.tag("tau"); }
     match db.run(dp.relation()) {
         Ok((names, res)) => {
             let idx = |n: &str| names.iter().position(|x| x == n);
-            let (Some(gi), Some(ci), Some(si), Some(mi), Some(vi), Some(di)) = (idx("g"), idx("c"), idx("s"), idx("m"), idx("v"), idx("d")) else { out.tag("trivial"); out.fail("C08/dpagg/output-columns", format!("the DP relation outputs {:?}", names)); return out; };
-            let mut table: Vec<J> = res.iter().map(|r| json!([r[gi].as_f64().map(|x| x as i64), r[ci].as_f64(), r[si].as_f64(), r[mi].as_f64(), r[vi].as_f64(), r[di].as_f64()])).collect();
+            let wanted: Vec<&str> = if two { vec!["g", "c", "s", "m", "v", "d", "c2", "s2", "m2", "v2", "d2"] } else { vec!["g", "c", "s", "m", "v", "d"] };
+            let pos: Vec<usize> = wanted.iter().filter_map(|n| idx(n)).collect();
+            if pos.len() != wanted.len() { out.tag("trivial"); out.fail("C08/dpagg/output-columns", format!("the DP relation outputs {:?}", names)); return out; }
+            let (gi, ci, si, mi, vi, di) = (pos[0], pos[1], pos[2], pos[3], pos[4], pos[5]);
+            let mut table: Vec<J> = res.iter().map(|r| { let mut v = vec![json!(r[gi].as_f64().map(|x| x as i64))]; v.extend(pos[1..].iter().map(|i| json!(r[*i].as_f64()))); J::Array(v) }).collect();
             table.sort_by(|x, y| x[0].as_i64().cmp(&y[0].as_i64()));
+            // the clipping constants of the derived columns, grouped by the aggregated column they belong to (told apart by the declared bound)
             let mut clips: Vec<(String, f64)> = facts.clips.clone(); clips.sort_by(|x, y| x.0.cmp(&y.0));
-            out.aux = json!({"table": table, "clips": clips.iter().map(|(n, c)| json!([n, c])).collect::<Vec<_>>()});
+            let base = |n: &str| n.trim_start_matches("_ONE_").trim_start_matches("_SQUARE_").to_string();
+            let group = |bound: f64| -> J { let b = clips.iter().find(|(n, c)| !n.starts_with("_ONE_") && !n.starts_with("_SQUARE_") && (c - bound).abs() <= 1e-9 * bound.abs().max(1.0)).map(|(n, _)| n.clone());
+                match b { None => J::Null, Some(b) => { let get = |pre: &str| clips.iter().find(|(n, _)| *n == format!("{pre}{b}")).map(|(_, c)| *c); json!([get("_ONE_"), get(""), get("_SQUARE_")]) } } };
+            let _ = base;
+            out.aux = json!({"table": table, "n_clips": clips.len(), "clips_x": group(a * mult), "clips_y": if two { group(3.0 * a * mult) } else { J::Null }});
             out.imp = json!({"agg_ok": true});
             let units: std::collections::BTreeMap<i64, usize> = rows.iter().fold(Default::default(), |mut m, r| { if let Cell::Int(u) = r[0] { *m.entry(u).or_default() += 1; } m });
             if units.values().any(|n| *n as f64 > mult) { out.tag("clipping-active"); } else { out.tag("clipping-inactive"); }
@@ -67,15 +79,19 @@ pub fn eval(case: &J) -> Outcome {
             // property-level oracle (C09): with clipping inactive the released statistics are those of the data
             if !units.values().any(|n| *n as f64 > mult) {
                 for g in 0..ng {
-                    let xs: Vec<f64> = rows.iter().filter(|r| r[1] == Cell::Int(g)).filter_map(|r| r[2].as_f64()).collect();
                     let Some(r) = res.iter().find(|r| r[gi].as_f64().map(|x| x as i64) == Some(g)) else { out.fail("C09/dpagg/group-missing", format!("group {g} (listed in the type of g) is absent from the DP result {:?}; rows {}", res, case["rows"])); break; };
+                  for col in 0..(if two { 2 } else { 1 }) {
+                    let (ci, si, mi, vi, di) = (pos[1 + 5 * col], pos[2 + 5 * col], pos[3 + 5 * col], pos[4 + 5 * col], pos[5 + 5 * col]);
+                    let xs: Vec<f64> = rows.iter().filter(|r| r[1] == Cell::Int(g)).filter_map(|r| r[2 + col].as_f64()).collect();
                     let n = xs.len() as f64; let sum: f64 = xs.iter().sum(); let mean = if n > 0.0 { sum / n } else { 0.0 };
                     let pvar = if n > 0.0 { xs.iter().map(|x| (x - mean) * (x - mean)).sum::<f64>() / n } else { 0.0 };
                     let svar = if n > 1.0 { pvar * n / (n - 1.0) } else { pvar };
                     let near = |a: Option<f64>, b: f64| a.map_or(false, |a| (a - b).abs() <= 1e-6 * (1.0 + b.abs()));
                     let bad = if !near(r[ci].as_f64(), n) { Some("count") } else if !near(r[si].as_f64(), sum) { Some("sum") } else if !near(r[mi].as_f64(), mean) { Some("avg") }
                         else if !(near(r[vi].as_f64(), pvar) || near(r[vi].as_f64(), svar)) { Some("var") } else if !(near(r[di].as_f64(), pvar.sqrt()) || near(r[di].as_f64(), svar.sqrt())) { Some("std") } else { None };
-                    if let Some(k) = bad { out.fail(&format!("C09/dpagg/{k}-mismatch"), format!("multiplicity {mult}, no unit owns more rows, noise draws 0: group {g} has values {:?} (count {n}, sum {sum}, mean {mean}, variance {pvar} / {svar}) but the DP relation released {:?}", xs, r)); break; }
+                    if let Some(k) = bad { out.fail(&format!("C09/dpagg/{k}-mismatch"), format!("multiplicity {mult}, no unit owns more rows, noise draws 0: group {g} has {} values {:?} (count {n}, sum {sum}, mean {mean}, variance {pvar} / {svar}) but the DP relation released {:?}", if col == 0 { "x" } else { "y" }, xs, r)); break; }
+                  }
+                  if !out.oracle.is_empty() { break; }
                 }
             }
         }
